@@ -97,6 +97,80 @@ EXTRA["C15"] = extra_C15
 
 
 # ---------------------------------------------------------------------------------------------
+# C13: counting clause on the implementation (normal-form monomials = common zeros). The clause is a theorem about
+# the model (Props/C13Count.lean); this oracle evaluates both counts from the implementation's own replies.
+
+def extra_C13(res, tier, seed, cov):
+    rng = random.Random(seed * 1000003 + 13)
+    qs = [(2, 1), (3, 1), (2, 2), (5, 1)] + ([(7, 1), (2, 3), (3, 2)] if tier == "thorough" else [])
+    lines, metas = [], []
+    for (p, n) in qs:
+        q = p ** n
+        desc = field_desc(p, n)
+        encs = G.enum_encs(desc)
+        one = encs[1]
+        for rep in range(6 if tier == "thorough" else 3):
+            order = rng.choice(G.ORDERS)
+            extras = []
+            for _ in range(rng.randrange(0, 3)):
+                terms = {}
+                for _ in range(rng.randrange(1, 4)):
+                    terms[(rng.randrange(0, 3), rng.randrange(0, 3))] = rand_elem(desc, rng, special=0)
+                extras.append("/".join("%d:%d:%s" % (k[0], k[1], v) for k, v in terms.items()))
+            # X^q - X, Y^q - Y (the additive inverse of one is encoded through the model-independent `ints` constructor
+            # below; in the generator list we need an encoding: -1 = p-1 in the prime subfield)
+            minus1 = str(p - 1) if desc[0] != "B" else "1"
+            gens = ["%d:0:%s/1:0:%s" % (q, one, minus1), "0:%d:%s/0:1:%s" % (q, one, minus1)] + extras
+            h = G.H(rng, desc, bspec=G.bspec(rng, order=order, gens=";".join(gens)))
+            mons = []
+            for i in range(q):
+                for j in range(q):
+                    r = h.newb(); h.ops.append("%s=map@1 %d:%d:%s" % (r, i, j, one)); mons.append((i, j))
+            es = [h.elem(e) for e in encs]
+            gregs = []
+            for g in extras:
+                r = h.newb(); h.ops.append("%s=map@0 %s" % (r, g)); gregs.append(r)
+            evs = []
+            for x in es:
+                for y in es:
+                    for g in gregs:
+                        h.ops.append("%s=eval %s %s %s" % (h.newe(), g, x, y))
+                    evs.append((x, y))
+            lines.append(h.line()); metas.append((q, len(mons), len(es), len(gregs), one))
+    go = run_go(lines, go_env={"VERIF_OP_TIMEOUT_MS": "60000"})
+    checked = bad = 0
+    for l, g, (q, nm, ne, ng, one) in zip(lines, go, metas):
+        if g.startswith(("PANIC", "TIMEOUT", "CRASH", "fuel")):
+            continue
+        segs = g.rpartition(" ## ")[0].split(" | ")
+        ops = l.partition(" | ")[2].split(" | ")
+        if len(segs) < len(ops):
+            continue
+        std = 0
+        for o, sg in zip(ops[:nm], segs[:nm]):
+            enc = o.split()[1]
+            if sg == "ok 1#" + enc:
+                std += 1
+        evseg = segs[nm + ne + ng:]
+        zeros = 0
+        for k in range(ne * ne):
+            vals = evseg[k * ng:(k + 1) * ng]
+            if all(v.split("#")[-1] in ("0",) for v in vals):
+                zeros += 1
+        checked += 1
+        if std != zeros:
+            bad += 1
+            if bad <= 3:
+                res.violation("property: C13\nkind: counting clause fails on the implementation: %d normal-form monomials but %d common zeros (ideal contains the field equations of GF(%d))\ncase: %s\nimplementation: %s\n" % (std, zeros, q, l, g[:1500]))
+    cov["counting_cases"] = checked
+    cov["counting_failures"] = bad
+    cov["evaluations"] = cov.get("evaluations", 0) + len(lines)
+
+
+EXTRA["C13"] = extra_C13
+
+
+# ---------------------------------------------------------------------------------------------
 # C20: supporting validation under the race detector (testing, labelled as such)
 
 def extra_C20(res, tier, seed, cov):
